@@ -363,7 +363,7 @@ pub fn run(tier: Tier) -> i32 {
     let mut run = Run::new("C10", tier, "exploration");
     let p = FastaWrite;
     run.replays("fasta-write-roundtrip", &p);
-    run.generated("fasta-write-roundtrip", &p, tier.pick(40_000, 2_000_000));
+    run.generated("fasta-write-roundtrip", &p, tier.pick(300_000, 2_000_000));
     run.exhaustive("wrap-chunking-exhaustive", "sequence length 0..=8 x wrap 1..=9 x all cut sets x empty-chunk placement, entry points write_wrap_seq_iter / write_wrap_seq / write_seq_iter", |ctx| {
         for len in 0..=8usize {
             let seq: Vec<u8> = (0..len).map(|i| b"ACGTNACGT"[i]).collect();
